@@ -17,8 +17,11 @@ import time
 import traceback
 
 ROOT = os.path.dirname(os.path.dirname(os.path.dirname(os.path.abspath(__file__))))
-EVIDENCE_DIR = os.path.join(ROOT, "evidence")
-REPLAY_DIR = os.path.join(ROOT, "replays")
+# VERIF_OUT redirects evidence and replay files (used when a check is pointed at a scratch worktree through
+# VERIF_REPO/VERIF_BUILD, e.g. to try a seeded fault or a proposed fix without touching /verif/evidence).
+_OUT = os.environ.get("VERIF_OUT") or ROOT
+EVIDENCE_DIR = os.path.join(_OUT, "evidence")
+REPLAY_DIR = os.path.join(_OUT, "replays")
 KNOWN_FILE = os.path.join(ROOT, "known_findings.json")
 NCPU = os.cpu_count() or 8
 
